@@ -29,6 +29,27 @@ def check(ctx):
         ctx.violation(rule, f"{cls}:{what}", msg, file=m.rel, function=cls, line=getattr(node, "lineno", 0),
                       construct=S.unparse(node)[:200] if node is not None else "")
 
+    # _repr renders a value with the builtin repr() (lists as displays of _repr of their items) and nothing else: any other renderer
+    # (abbreviating, rounding, encoding) makes eval(repr(x)) rebuild a different value
+    rf = mod.functions.get("_repr") if hasattr(mod, "functions") else None
+    if rf is None:
+        raise AnalysisError("c_ast._repr vanished")
+    param = rf.args.args[0].arg
+    bad_calls = []
+    for c in ast.walk(rf):
+        if isinstance(c, ast.Call):
+            fname = c.func.id if isinstance(c.func, ast.Name) else (c.func.attr if isinstance(c.func, ast.Attribute) and not isinstance(c.func.value, ast.Name) else S.unparse(c.func))
+            if isinstance(c.func, ast.Attribute) and isinstance(c.func.value, ast.Constant) and c.func.attr == "join":
+                continue
+            if fname not in ("isinstance", "repr", "_repr", "join", "replace", "type", "len"):
+                bad_calls.append(c)
+    rets = [r for r in ast.walk(rf) if isinstance(r, ast.Return)]
+    leaf_ok = any(isinstance(r.value, ast.Call) and isinstance(r.value.func, ast.Name) and r.value.func.id == "repr" and len(r.value.args) == 1 and S.unparse(r.value.args[0]) == param for r in rets)
+    ok = not bad_calls and leaf_ok
+    ctx.oblige("R-C15.1", "_repr renders values with the builtin repr only", ok, sample={"rule": "R-C15.1", "returns": [S.unparse(r.value)[:70] for r in rets if r.value is not None], "other renderers": [S.unparse(c)[:50] for c in bad_calls]})
+    if not ok:
+        viol("R-C15.1", "_repr", "renderer", f"c_ast._repr renders some values through {[S.unparse(c)[:40] for c in bad_calls] or 'something other than repr(obj)'}: repr() of a node is no longer a faithful Python expression for every attribute value "
+             "(a shortened or re-encoded string still evaluates, to a different value)", bad_calls[0] if bad_calls else rf)
     node = models.get("Node")
     if node is None or "__repr__" not in node.methods:
         raise AnalysisError("Node.__repr__ vanished")
